@@ -297,7 +297,6 @@ def main(replay=None):
         "wf_indexed (index bijection of the dumped geometry): Section hypothesis of the structural theorems, discharged for every geometry accepted by finalize (default ordering) by C11's bridge coq/Geom/IndexBridgeC10.v",
         "cavity_wall_indicator_in_kernel: Gauss' law for the abstract D kernel on the cavity wall seen from its partner meshes (hypothesis W_gauss), no shared vertices with the wall; replayed numerically on the real matrices",
         "inside one N block of the head matrix the model reads S from the matrix as it was at block start (equal to the live reads when no vertex index equals a triangle index)",
-        "headmat_dimension: nb_parameters = #valid vertices + #current triangles + #barrier triangles (C11's count) is a premise",
         "kernels (analyticS, analyticD3, Integrator) are abstract in the theorems; the ties run them as library code and as injected integer-valued classes compiled into operators.h / assembleHeadMat.cpp / assembleSourceMat.cpp",
         "invertibility after deflation and |A*inv(A)-I| are measured (SVD, SymMatrix::invert), not proved"]
     ck.cov["trusted_base"] += ["hand-written Gallina models coq/Geom/{Assembly,AssemblyOps}.v tied by entry-by-entry runs (harness/h_c10.cpp, h_c10s.cpp vs extracted extract/omm)",
